@@ -316,12 +316,12 @@ static void mutate_signature(const pair_t *p, jwt_checker_t *c, const char *base
 		{
 			static const char fill[] = { 'A', 'x', '!', (char)0x80, (char)0xff };
 			for (unsigned f = 0; f < sizeof fill; f++)
-				for (int n = 256; n <= 768; n += 256) {
+				for (int n = 256; n <= 65536; n = n < 768 ? n + 256 : n == 768 ? 65536 : n + 1) {
 					char *big = malloc(strlen(base) + n + 1);
 					strcpy(big, base);
 					memset(big + strlen(base), fill[f], n);
 					big[strlen(base) + n] = 0;
-					emit(p, c, big, "sig-extended-by-multiple-of-256");
+					emit(p, c, big, n == 65536 ? "sig-extended-by-65536" : "sig-extended-by-multiple-of-256");
 					free(big);
 				}
 		}
